@@ -162,6 +162,8 @@ def b_list(ex, node, st, sink):
             out.append((s, SV(v.t, v.e)))  # a copy: values are immutable in the encoding
         elif isinstance(v.t, ty.Tuple):
             out.append((s, ops.coerce(v, ty.Seq(v.t.elems[0]))))
+        elif isinstance(v.t, ty.Map) and v.e is not None:
+            out.append((s, ex.map_keys(s, v)))      # list(d): a snapshot of the keys
         else:
             raise Unsupported("list(%s)" % v.t)
     return out
